@@ -167,6 +167,33 @@ class RM:
             self.verdicts.append(None if not reasons else repr(reasons))
             if c.get("async"):
                 self.async_links.append((u, v))
+        # ---- pairs (u, v) of one group for which no data path from u to v resets a sub-time
+        # tier (every hop of every walk stays inside groups that contain that group): for them
+        # lazy stepping orders complete tiered times, not just main times (C10)
+        INF = 99
+        sids = [s["sid"] for s in self.sims]
+        cut = {a: {b: INF for b in sids} for a in sids}
+        for e in self.conns:
+            cut[e.u][e.v] = min(cut[e.u][e.v], e.c)
+        changed = True
+        while changed:
+            changed = False
+            for w in sids:
+                for a in sids:
+                    caw = cut[a][w]
+                    if caw == INF:
+                        continue
+                    for b in sids:
+                        x = min(caw, cut[w][b])
+                        if x < cut[a][b]:
+                            cut[a][b] = x
+                            changed = True
+        self.lazy_full = set()
+        for a in sids:
+            for b in sids:
+                if a != b and self.path_of[a] == self.path_of[b] and len(self.path_of[a]) >= 2 \
+                        and cut[a][b] == len(self.path_of[a]):
+                    self.lazy_full.add((a, b))
         self.into: Dict[str, List[Conn]] = {s["sid"]: [] for s in self.sims}
         self.outof: Dict[str, List[Conn]] = {s["sid"]: [] for s in self.sims}
         for e in self.conns:
